@@ -234,27 +234,42 @@ Definition map_keys : list bytes :=
 Definition deleted_sfx : bytes := bs " (deleted)".
 Definition anon_path : bytes := bs "[anon]".
 
-(* path = decode(hfields[5]); the " (deleted)" marker is cut when no file of that name
-   exists.  (Since /repo commit c15178c the name is no longer .strip()ped.) *)
-Definition clean_path (exists_ : bytes -> bool) (path : bytes) : bytes :=
+(* path_exists_strict(path): os.stat(path); PermissionError is re-raised, every other
+   OSError (ENOENT, ENOTDIR, ENAMETOOLONG, ELOOP, EIO, EOVERFLOW, ...) means "no" *)
+Inductive probe_res :=
+| PExists              (* os.stat succeeded *)
+| PAbsent              (* os.stat raised an OSError other than EACCES / EPERM, whatever its errno *)
+| PDenied.             (* os.stat raised PermissionError (EACCES / EPERM) *)
+
+(* path = decode(hfields[5]); the " (deleted)" marker is cut when the marked path cannot be
+   shown to exist; the probe is consulted only for names that end in the marker; a
+   PermissionError leaves memory_maps (wrap_exceptions: AccessDenied).
+   (Since /repo commit c15178c the name is no longer .strip()ped.) *)
+Definition clean_path (probe : bytes -> probe_res) (path : bytes) : outcome bytes :=
   match path with
-  | [] => anon_path
-  | _ => if suffixb deleted_sfx path && negb (exists_ path) then firstn (length path - 10) path else path
+  | [] => Val anon_path
+  | _ =>
+    if suffixb deleted_sfx path then
+      match probe path with
+      | PExists => Val path
+      | PAbsent => Val (firstn (length path - 10) path)
+      | PDenied => Exc AccessDenied
+      end
+    else Val path
   end.
 (* the code before commit c15178c: path = path.strip() on the decoded str first *)
-Definition clean_path_legacy (exists_ : bytes -> bool) (path : bytes) : bytes :=
+Definition clean_path_legacy (probe : bytes -> probe_res) (path : bytes) : outcome bytes :=
   match path with
-  | [] => anon_path
-  | _ =>
-    let p := str_strip path in
-    if suffixb deleted_sfx p && negb (exists_ p) then firstn (length p - 10) p else p
+  | [] => Val anon_path
+  | _ => match str_strip path with [] => Val [] | p => clean_path probe p end
   end.
 
 (* the consumer's part of the loop, for one (header, data) pair *)
-Definition mk_row (exists_ : bytes -> bool) (header : bytes) (d : dict) : outcome maprow :=
+Definition mk_row (exists_ : bytes -> probe_res) (header : bytes) (d : dict) : outcome maprow :=
   match split_max 5 header with
   | [addr; perms; _; _; _; path] =>
-    Val {| w_addr := addr; w_perms := perms; w_path := clean_path exists_ path;
+    do p <- clean_path exists_ path;
+    Val {| w_addr := addr; w_perms := perms; w_path := p;
            w_nums := map (fun k => dict_get k d) map_keys |}
   | [addr; perms; _; _; _] =>
     Val {| w_addr := addr; w_perms := perms; w_path := anon_path;
@@ -265,7 +280,7 @@ Definition mk_row (exists_ : bytes -> bool) (header : bytes) (d : dict) : outcom
 (* get_blocks: state = (current header, data dict, rows so far reversed).
    The dict is created once and never cleared between blocks (as in the code). *)
 Definition bstate := (bytes * dict * list maprow)%type.
-Definition block_line (exists_ : bytes -> bool) (st : bstate) (line : bytes) : outcome bstate :=
+Definition block_line (exists_ : bytes -> probe_res) (st : bstate) (line : bytes) : outcome bstate :=
   let '(cur, d, rows) := st in
   match split_max 5 line with
   | [] => Exc IndexError                      (* fields[0] *)
@@ -283,13 +298,13 @@ Definition block_line (exists_ : bytes -> bool) (st : bstate) (line : bytes) : o
       end
   end.
 
-Fixpoint block_fold (exists_ : bytes -> bool) (st : bstate) (ls : list bytes) : outcome bstate :=
+Fixpoint block_fold (exists_ : bytes -> probe_res) (st : bstate) (ls : list bytes) : outcome bstate :=
   match ls with
   | [] => Val st
   | l :: r => do st' <- block_line exists_ st l; block_fold exists_ st' r
   end.
 
-Definition maps_of_data (exists_ : bytes -> bool) (data : bytes) : outcome (list maprow) :=
+Definition maps_of_data (exists_ : bytes -> probe_res) (data : bytes) : outcome (list maprow) :=
   match split_on 10 data with
   | [] => Val []
   | first :: rest =>
@@ -299,7 +314,7 @@ Definition maps_of_data (exists_ : bytes -> bool) (data : bytes) : outcome (list
     Val (rev (row :: rows))
   end.
 
-Definition memory_maps (ps : pstate) (exists_ : bytes -> bool) (smaps : file_res) : outcome (list maprow) :=
+Definition memory_maps (ps : pstate) (exists_ : bytes -> probe_res) (smaps : file_res) : outcome (list maprow) :=
   with_file ps smaps (fun content =>
     match fstrip content with
     | [] => match ps with Zombie => Exc ZombieProcess | _ => Val [] end
